@@ -29,12 +29,12 @@ package cluster
 // score(key, server) = xxh(key + server); the owner of a key is a server of minimal score.
 
 //@ func RendezvousHash$1
-//@   property C13
+//@   property C13 C14 C17
 //@   pure
 //@   ensures (result < 0) == (a.Score < b.Score) && (result > 0) == (a.Score > b.Score)
 
 //@ func RendezvousHash
-//@   property C13
+//@   property C13 C14 C17
 //@   requires topK >= 0
 //@   ensures len(result) == min(topK, len(servers))
 //@   ensures forall(j, 0, len(result), exists(i, 0, len(servers), result[j] == servers[i]))
